@@ -47,13 +47,13 @@ Local Open Scope R_scope.
    inner point, which scalar multiplies what, which block of the point goes to
    which block operand, linear shortcuts -- is proved. *)
 Theorem derivative_is_frechet :
-  forall (af : nat -> list R -> list R) (ad : nat -> list R -> list R -> list R) (adm arn : nat -> space) (rv : bool),
+  forall (af : nat -> list R -> list R) (ad : nat -> list R -> list R -> list R) (adm arn : nat -> space),
   (forall k x, length x = sdim (adm k) ->
      hdiff (sdim (adm k)) (sdim (arn k)) (af k) x (ad k x) /\
      blin (sdim (adm k)) (sdim (arn k)) (ad k x)) ->
   forall (e : @oexpr R) (x : list R),
-  let P := PR af ad adm arn rv in
-  wt P e = true -> length x = sdim (dom P e) -> deriv_ok P e x = true -> regular af ad adm arn rv e x ->
+  let P := PR af ad adm arn in
+  wt P e = true -> length x = sdim (dom P e) -> deriv_ok P e x = true -> regular af ad adm arn e x ->
   let D := derivative P e x in
   hdiff (sdim (dom P e)) (sdim (ran P e)) (eval P e) x (eval P D) /\
   blin (sdim (dom P e)) (sdim (ran P e)) (eval P D) /\
@@ -74,13 +74,13 @@ Proof. exact linmap_blin. Qed.
 Print Assumptions linear_maps_are_bounded.
 
 Theorem derivative_is_frechet_linear_premise :
-  forall (af : nat -> list R -> list R) (ad : nat -> list R -> list R -> list R) (adm arn : nat -> space) (rv : bool),
+  forall (af : nat -> list R -> list R) (ad : nat -> list R -> list R -> list R) (adm arn : nat -> space),
   (forall k x, length x = sdim (adm k) ->
      hdiff (sdim (adm k)) (sdim (arn k)) (af k) x (ad k x) /\
      linmap (sdim (adm k)) (sdim (arn k)) (ad k x)) ->
   forall (e : @oexpr R) (x : list R),
-  let P := PR af ad adm arn rv in
-  wt P e = true -> length x = sdim (dom P e) -> deriv_ok P e x = true -> regular af ad adm arn rv e x ->
+  let P := PR af ad adm arn in
+  wt P e = true -> length x = sdim (dom P e) -> deriv_ok P e x = true -> regular af ad adm arn e x ->
   let D := derivative P e x in
   hdiff (sdim (dom P e)) (sdim (ran P e)) (eval P e) x (eval P D) /\
   blin (sdim (dom P e)) (sdim (ran P e)) (eval P D) /\
@@ -92,13 +92,13 @@ Print Assumptions derivative_is_frechet_linear_premise.
    direction d is the limit of the central difference quotient
    (op(x + h d) - op(x - h d)) / (2h), entry by entry. *)
 Theorem derivative_is_central_difference_limit :
-  forall (af : nat -> list R -> list R) (ad : nat -> list R -> list R -> list R) (adm arn : nat -> space) (rv : bool),
+  forall (af : nat -> list R -> list R) (ad : nat -> list R -> list R -> list R) (adm arn : nat -> space),
   (forall k x, length x = sdim (adm k) ->
      hdiff (sdim (adm k)) (sdim (arn k)) (af k) x (ad k x) /\
      blin (sdim (adm k)) (sdim (arn k)) (ad k x)) ->
   forall (e : @oexpr R) (x : list R),
-  let P := PR af ad adm arn rv in
-  wt P e = true -> length x = sdim (dom P e) -> deriv_ok P e x = true -> regular af ad adm arn rv e x ->
+  let P := PR af ad adm arn in
+  wt P e = true -> length x = sdim (dom P e) -> deriv_ok P e x = true -> regular af ad adm arn e x ->
   forall d, length d = sdim (dom P e) -> forall i, (i < sdim (ran P e))%nat ->
   forall eps, 0 < eps -> exists delta, 0 < delta /\
     forall h, h <> 0 -> Rabs h < delta ->
@@ -111,39 +111,39 @@ Print Assumptions derivative_is_central_difference_limit.
    linear IS a bounded linear map (so the shortcut `return self` is justified),
    and whatever object derivative(x) returns for it acts exactly like e. *)
 Theorem flagged_linear_is_linear :
-  forall (af : nat -> list R -> list R) (ad : nat -> list R -> list R -> list R) (adm arn : nat -> space) (rv : bool),
+  forall (af : nat -> list R -> list R) (ad : nat -> list R -> list R -> list R) (adm arn : nat -> space),
   (forall k x, length x = sdim (adm k) ->
      hdiff (sdim (adm k)) (sdim (arn k)) (af k) x (ad k x) /\
      blin (sdim (adm k)) (sdim (arn k)) (ad k x)) ->
   forall (e : @oexpr R),
-  let P := PR af ad adm arn rv in
+  let P := PR af ad adm arn in
   is_lin e = true -> wt P e = true -> blin (sdim (dom P e)) (sdim (ran P e)) (eval P e).
 Proof. exact lin_blin. Qed.
 Print Assumptions flagged_linear_is_linear.
 
 Theorem linear_is_own_derivative :
-  forall (af : nat -> list R -> list R) (ad : nat -> list R -> list R -> list R) (adm arn : nat -> space) (rv : bool),
+  forall (af : nat -> list R -> list R) (ad : nat -> list R -> list R -> list R) (adm arn : nat -> space),
   (forall k x, length x = sdim (adm k) ->
      hdiff (sdim (adm k)) (sdim (arn k)) (af k) x (ad k x) /\
      blin (sdim (adm k)) (sdim (arn k)) (ad k x)) ->
   forall (e : @oexpr R) (x : list R),
-  let P := PR af ad adm arn rv in
+  let P := PR af ad adm arn in
   is_lin e = true -> wt P e = true -> length x = sdim (dom P e) ->
-  deriv_ok P e x = true -> regular af ad adm arn rv e x ->
+  deriv_ok P e x = true -> regular af ad adm arn e x ->
   forall d, length d = sdim (dom P e) -> eval P (derivative P e x) d = eval P e d.
 Proof. exact lin_deriv_self. Qed.
 Print Assumptions linear_is_own_derivative.
 
 (* "Affine ones have the derivative of their linear part" *)
 Theorem affine_has_derivative_of_linear_part :
-  forall (af : nat -> list R -> list R) (ad : nat -> list R -> list R -> list R) (adm arn : nat -> space) (rv : bool),
+  forall (af : nat -> list R -> list R) (ad : nat -> list R -> list R -> list R) (adm arn : nat -> space),
   (forall k x, length x = sdim (adm k) ->
      hdiff (sdim (adm k)) (sdim (arn k)) (af k) x (ad k x) /\
      blin (sdim (adm k)) (sdim (arn k)) (ad k x)) ->
   forall (a : @oexpr R) (v x : list R),
-  let P := PR af ad adm arn rv in
+  let P := PR af ad adm arn in
   is_lin a = true -> wt P (OVecSum a v) = true -> length x = sdim (dom P a) ->
-  deriv_ok P a x = true -> regular af ad adm arn rv a x ->
+  deriv_ok P a x = true -> regular af ad adm arn a x ->
   forall d, length d = sdim (dom P a) -> eval P (derivative P (OVecSum a v) x) d = eval P a d.
 Proof. exact affine_deriv. Qed.
 Print Assumptions affine_has_derivative_of_linear_part.
@@ -162,25 +162,25 @@ Print Assumptions frechet_derivative_unique.
    ufunc's domain of differentiability; same for gradient_factory (ufunc
    functionals on the real line). *)
 Theorem ufunc_derivative_table_correct :
-  forall (af : nat -> list R -> list R) (ad : nat -> list R -> list R -> list R) (adm arn : nat -> space) (rv : bool),
+  forall (af : nat -> list R -> list R) (ad : nat -> list R -> list R -> list R) (adm arn : nat -> space),
   forall (f : ufn) (e : uex), ufunc_deriv f = Some e ->
   forall a : R, uregular f a ->
-  derivable_pt_lim (usem (PR af ad adm arn rv) f) a (ueval (PR af ad adm arn rv) e a).
+  derivable_pt_lim (usem (PR af ad adm arn) f) a (ueval (PR af ad adm arn) e a).
 Proof. exact ufunc_deriv_table_sound. Qed.
 Print Assumptions ufunc_derivative_table_correct.
 
 Theorem ufunc_gradient_table_correct :
-  forall (af : nat -> list R -> list R) (ad : nat -> list R -> list R -> list R) (adm arn : nat -> space) (rv : bool),
+  forall (af : nat -> list R -> list R) (ad : nat -> list R -> list R -> list R) (adm arn : nat -> space),
   forall (f : ufn) (e : uex), ufunc_grad f = Some e ->
   forall a : R, uregular f a ->
-  derivable_pt_lim (usem (PR af ad adm arn rv) f) a (ueval (PR af ad adm arn rv) e a).
+  derivable_pt_lim (usem (PR af ad adm arn) f) a (ueval (PR af ad adm arn) e a).
 Proof. exact ufunc_grad_table_sound. Qed.
 Print Assumptions ufunc_gradient_table_correct.
 
 (* ufuncs listed in LINEAR_UFUNCS (regenerated) really are linear *)
 Theorem ufunc_linear_flag_correct :
-  forall (af : nat -> list R -> list R) (ad : nat -> list R -> list R -> list R) (adm arn : nat -> space) (rv : bool),
-  forall f : ufn, ufunc_linear f = true -> exists c : R, forall a : R, usem (PR af ad adm arn rv) f a = c * a.
+  forall (af : nat -> list R -> list R) (ad : nat -> list R -> list R -> list R) (adm arn : nat -> space),
+  forall f : ufn, ufunc_linear f = true -> exists c : R, forall a : R, usem (PR af ad adm arn) f a = c * a.
 Proof. exact ufunc_linear_scale. Qed.
 Print Assumptions ufunc_linear_flag_correct.
 
@@ -194,58 +194,47 @@ Print Assumptions ufunc_linear_flag_correct.
    gradient rules compute at x:   d |-> <d, fgrad w f x>_w   is the
    Frechet/Hadamard derivative of f at x, at every regular point (x <> 0 for
    L2Norm, no zero entry for L1Norm, divisor <> 0).
-   Variant switches (measured on the code at run time, FModel): rzv = RosenbrockFunctional
-   divides its partial derivatives by the weights (proposed repair) / does not
-   (current source); mav = MatrixOperator.adjoint is the true adjoint between
-   weighted spaces (repair asked of C05) / the plain transpose (current source).
-   [fok rzv mav w f]: with the CURRENT source (false, false) every composition with a
-   MatrixOperator must be between UNWEIGHTED spaces and RosenbrockFunctional must
-   live on an unweighted space -- otherwise the statement is false (the two
-   recorded findings, refuted below); with the repaired variants only non-zero
-   weights are required.
+   Variant switch (measured on the code at run time, FModel): mav = MatrixOperator.adjoint
+   is the true adjoint between weighted spaces (repair asked of C05) / the plain
+   transpose (current source).
+   [fok mav w f]: with the CURRENT source (mav = false) every composition with a
+   MatrixOperator must be between UNWEIGHTED spaces -- otherwise the statement is
+   false (recorded finding, refuted below); RosenbrockFunctional (gradient = partial
+   derivatives / weights) and the repaired adjoint only need non-zero weights.
    [sdiff n phi x ell]: along every differentiable curve g through x with
    velocity d,  t |-> phi (g t)  has derivative  ell d  at 0. *)
 Theorem functional_gradient_is_derivative :
-  forall (rzv mav : bool) (f : @fexpr R) (w x : list R),
-  fwt f = true -> fok rzv mav w f = true -> length w = fdim f -> length x = fdim f -> fregular w f x ->
-  sdiff (fdim f) (feval sqrt w f) x (fun d => wdot w d (fgrad sqrt rzv mav w f x)).
+  forall (mav : bool) (f : @fexpr R) (w x : list R),
+  fwt f = true -> fok mav w f = true -> length w = fdim f -> length x = fdim f -> fregular w f x ->
+  sdiff (fdim f) (feval sqrt w f) x (fun d => wdot w d (fgrad sqrt mav w f x)).
 Proof. exact fgrad_sound. Qed.
 Print Assumptions functional_gradient_is_derivative.
 
 Theorem functional_derivative_is_frechet :
-  forall (rzv mav : bool) (f : @fexpr R) (w x : list R),
-  fwt f = true -> fok rzv mav w f = true -> length w = fdim f -> length x = fdim f -> fregular w f x ->
-  hdiff (fdim f) 1 (fun y => [feval sqrt w f y]) x (fun d => [wdot w d (fgrad sqrt rzv mav w f x)]).
+  forall (mav : bool) (f : @fexpr R) (w x : list R),
+  fwt f = true -> fok mav w f = true -> length w = fdim f -> length x = fdim f -> fregular w f x ->
+  hdiff (fdim f) 1 (fun y => [feval sqrt w f y]) x (fun d => [wdot w d (fgrad sqrt mav w f x)]).
 Proof. exact functional_derivative_sound. Qed.
 Print Assumptions functional_derivative_is_frechet.
 
 (* The unrestricted statement (drop [fok w f]) is FALSE of the faithful model -- the recorded
    finding FunctionalComp-MatrixOperator-weighted-space:
      forall f w x, fwt f = true -> length w = fdim f -> length x = fdim f -> fregular w f x ->
-       sdiff (fdim f) (feval sqrt w f) x (fun d => wdot w d (fgrad sqrt false false w f x)).
+       sdiff (fdim f) (feval sqrt w f) x (fun d => wdot w d (fgrad sqrt false w f x)).
    Witness: L2NormSquared(rn(1)) o MatrixOperator([[1]]) on rn(1, weighting=2) at x = 1
    (the code answers 4 d, the derivative is 2 d).  The theorem above is the partial
    statement with the exact precondition. *)
 Theorem functional_gradient_weighted_composition_refuted :
   fwt bad_f = true /\ length [2] = fdim bad_f /\ fregular [2] bad_f [1] /\
-  ~ sdiff (fdim bad_f) (feval sqrt [2] bad_f) [1] (fun d => wdot [2] d (fgrad sqrt false false [2] bad_f [1])).
+  ~ sdiff (fdim bad_f) (feval sqrt [2] bad_f) [1] (fun d => wdot [2] d (fgrad sqrt false [2] bad_f [1])).
 Proof. exact fgrad_weighted_comp_refuted. Qed.
 Print Assumptions functional_gradient_weighted_composition_refuted.
 
-(* Likewise RosenbrockFunctional: its gradient is the vector of partial derivatives whatever the
-   weighting, so [fok] asks for an unweighted space; on rn(2, weighting=2) the statement fails
-   (finding RosenbrockFunctional-weighted-space). *)
-Theorem rosenbrock_weighted_refuted :
-  fwt bad_r = true /\ length [2; 2] = fdim bad_r /\ fregular [2; 2] bad_r [0; 0] /\
-  ~ sdiff (fdim bad_r) (feval sqrt [2; 2] bad_r) [0; 0] (fun d => wdot [2; 2] d (fgrad sqrt false false [2; 2] bad_r [0; 0])).
-Proof. exact rosen_weighted_refuted. Qed.
-Print Assumptions rosenbrock_weighted_refuted.
-
 (* a weighted example without composition, and an unweighted one with a matrix composition *)
 Example functional_premises_hold :
-  (fwt ex_f = true /\ fok false false [2; 3] ex_f = true /\ length [2; 3] = fdim ex_f /\ length [1; 2] = fdim ex_f /\
+  (fwt ex_f = true /\ fok false [2; 3] ex_f = true /\ length [2; 3] = fdim ex_f /\ length [1; 2] = fdim ex_f /\
    fregular [2; 3] ex_f [1; 2]) /\
-  (fwt ex_g = true /\ fok false false [1; 1] ex_g = true /\ fregular [1; 1] ex_g [1; 2]).
+  (fwt ex_g = true /\ fok false [1; 1] ex_g = true /\ fregular [1; 1] ex_g [1; 2]).
 Proof. exact ex_f_premises. Qed.
 
 (* ---- the premise on user-defined leaves is satisfiable: the harness's own
@@ -258,7 +247,7 @@ Proof. exact ex_Habs. Qed.
 
 (* ---- and the premises on (e, x) are satisfiable by a tree using every class ---- *)
 Example premises_hold :
-  let P := PR ex_af ex_ad ex_dm ex_dm false in
+  let P := PR ex_af ex_ad ex_dm ex_dm in
   wt P ex_tree = true /\ is_lin ex_tree = false /\ length [1; 2] = sdim (dom P ex_tree) /\
-  deriv_ok P ex_tree [1; 2] = true /\ regular ex_af ex_ad ex_dm ex_dm false ex_tree [1; 2].
+  deriv_ok P ex_tree [1; 2] = true /\ regular ex_af ex_ad ex_dm ex_dm ex_tree [1; 2].
 Proof. exact ex_premises. Qed.
